@@ -80,6 +80,7 @@ type Profile struct {
 	SpreadEnum     bool    // services declare different subsets of an enum's values (merge-only universes)
 	Underscore     float64 // probability of names starting with a single underscore: root fields `_health`, `_meta`, a plain type `_Meta`
 	PluralNodes    float64 // probability of Relay's plural entry point nodes(ids: [ID!]!): [Node]! owned by one service
+	MutationRoots  [2]int  // number of Mutation root fields (zero value: 1..4)
 	AbstractRoots  bool    // interfaces and unions have at least two members where possible, and each gets a root field returning a list of it
 	CommandOnly    float64 // probability of an extra service that has mutations and entity fields but no Query field besides node
 	IfaceImplNode  float64 // probability that an interface over entities is declared `implements Node` (merge-only universes)
@@ -474,7 +475,11 @@ func NewUniverse(r *rand.Rand, p Profile) *Universe {
 		if p.SharedRoots {
 			names = append(names, rootNames...)
 		}
-		u.Mutation = mkRoots(1+r.Intn(4), names, mUsed)
+		nm := 1 + r.Intn(4)
+		if p.MutationRoots[1] > 0 {
+			nm = between(r, p.MutationRoots)
+		}
+		u.Mutation = mkRoots(nm, names, mUsed)
 		if p.SharedRoots {
 			// the same root field (name and signature) on Query and Mutation, owned by different services
 			for i := 0; i < 2 && i < len(u.Query); i++ {
